@@ -8,6 +8,7 @@ mod lock;
 mod misc;
 mod model;
 mod pl;
+mod rbtrace;
 mod scen;
 mod sys;
 mod trace;
@@ -279,6 +280,7 @@ fn main() {
         Some("img") => img::cmd_img(&kv),
         Some("misc") => misc::cmd_misc(&kv),
         Some("trace") => trace::cmd_trace(&kv),
+        Some("rbtrace") => rbtrace::cmd_rbtrace(&kv),
         Some("walimg") => walimg::cmd_walimg(&kv),
         Some("lockchild") => lock::lockchild_main(&pos[1], &pos[2], &pos[3], &pos[4], &pos[5]),
         Some("iochild") => io::child_main(&pos[1], &pos[2]),
